@@ -270,6 +270,21 @@ def check_e2e(res, prop, tier, rng):
                 for key2, mo in run.model.items():
                     if mo[k] != outs[key2]:
                         corr.append({'case': c.line()[:2000], 'cfg': key2[0], 'build': key2[1], 'impl': outs[key2], 'model': mo[k]})
+    if prop == 'C02' and tier == 'thorough':
+        # every f32 rounding boundary (2^31 - 2^23 midpoints), written out exactly: tie, tie + a deep
+        # digit, tie - epsilon, on the real code; 1/8 of them per run (offset from the seed), all with VERIF_FULL=1
+        stride = 1 if os.environ.get('VERIF_FULL') else 8
+        exe = '%s/target/s-release/release/sweep' % CACHE
+        rc, out, err = sh('%s f32mid %d %d' % (exe, stride, res.seed % stride), timeout=7000)
+        res.suite_stats['f32_midpoint_sweep'] = out.strip()[-300:]
+        mm = re.search(r'parses=(\d+)', out)
+        if mm:
+            res.evaluations += int(mm.group(1))
+        if rc != 0:
+            res.violation('f32 midpoint sweep: a rounding boundary is decided wrongly', {'output': out[-3000:], 'cfg': 's', 'build': 'release',
+                          'replay_cmd': '%s f32mid %d %d' % (exe, stride, res.seed % stride)})
+        elif stride == 1:
+            res.coverage['exhaustive'] = True
     cross_check_oracle(res, run)
     refine_violations(res, prop)
     finish_verdict(res, broken, corr, 'L0 parse_float bits')
@@ -375,6 +390,21 @@ def check_c03(res, tier, rng):
             if mo[k] != run.impl[key2][idx]:
                 corr.append({'case': c.line()[:2000], 'cfg': key2[0], 'build': key2[1], 'impl': run.impl[key2][idx], 'model': mo[k]})
     refine_violations(res, 'C03')
+    if tier == 'thorough':
+        # EVERY finite non-negative f32: shortest and 9-digit renderings (Rust's formatter) + exact
+        # expansion of every 64th, on the real code; every second value per run, all with VERIF_FULL=1
+        stride = 1 if os.environ.get('VERIF_FULL') else 2
+        exe = '%s/target/s-release/release/sweep' % CACHE
+        rc, out, err = sh('%s f32rt %d %d' % (exe, stride, res.seed % stride), timeout=7000)
+        res.suite_stats['f32_roundtrip_sweep'] = out.strip()[-300:]
+        mm = re.search(r'parses=(\d+)', out)
+        if mm:
+            res.evaluations += int(mm.group(1))
+        if rc != 0:
+            res.violation('f32 round-trip sweep: a printed float does not parse back', {'output': out[-3000:], 'cfg': 's', 'build': 'release',
+                          'replay_cmd': '%s f32rt %d %d' % (exe, stride, res.seed % stride)})
+        elif stride == 1:
+            res.coverage['exhaustive'] = True
     finish_verdict(res, broken, corr, 'L0 parse_float bits on printed floats')
 
 
